@@ -72,6 +72,14 @@ impl<'a, C: Context> Readable<'a, C> for Locator {
     let repr = repr::Locator::read_from(reader)?;
     Ok(repr.into())
   }
+
+  // Without this Speedy assumes a minimum size of zero, and then reading a
+  // Vec<Locator> allocates space for as many elements as the (untrusted)
+  // length prefix says before checking that the input is long enough.
+  #[inline]
+  fn minimum_bytes_needed() -> usize {
+    <repr::Locator as Readable<'a, C>>::minimum_bytes_needed()
+  }
 }
 
 impl<C: Context> Writable<C> for Locator {
